@@ -161,6 +161,9 @@ def check(col, prog, tier, profile, fixture=None):
                 if f[0] == "eq" and f[2] == 0 and t in cb and not isinstance(f[2], bool):
                     t = ("bin", "Eq", t, mk_int(0))
                     f = ("eq", t, 1)
+                if f[0] == "eq" and f[2] == 0 and isinstance(t, tuple) and t[0] == "bin" and t[1] == "Ne" and t[3] == mk_int(0) and t[2] in cb:
+                    t = ("bin", "Eq", t[2], mk_int(0))
+                    f = ("eq", t, 1)
                 if f[0] == "eq" and f[2] == 1 and isinstance(t, tuple) and t[0] == "bin" and t[1] == "Eq" and t[3] == mk_int(0) and t[2] in cb:
                     v0 = cb[t[2]].single_var()
                     if v0 is not None:
@@ -420,8 +423,10 @@ def _families(col, crate, adt, targets, sfx, modes=None, assign_of=None, A=None)
         for st in I.final_states:
             for f in st.facts:
                 t = f[1]
-                if isinstance(t, tuple) and t[0] == "bin" and t[1] in ("Ne", "Eq") and t[3] == mk_int(0) and t[2][0] == "phi":
+                if isinstance(t, tuple) and t[0] == "bin" and t[1] in ("Ne", "Eq", "Gt") and t[3] == mk_int(0) and t[2][0] == "phi":
                     exp_l = t[2][2]
+                if isinstance(t, tuple) and t[0] == "bin" and t[1] == "Lt" and t[2] == mk_int(0) and t[3][0] == "phi":
+                    exp_l = t[3][2]
         res_l = None
         for st in I.final_states:
             r = util.ret_term(st)
